@@ -20,7 +20,7 @@ def _expand(payload, sub):
     rng = sub.rng('expand')
     import random
     rng = random.Random(payload['gseed'])
-    tables = PL.gen_tables(rng, big_p=payload.get('big_p', 0.08))
+    tables = PL.gen_tables(rng, big_p=payload.get('big_p', 0.08), nested_p=0.25)
     stats = {}
     steer = rng.random() < payload.get('steer_p', 0.85)
     # known finding C01-dump-counters: most pipelines keep file dumpers at the very end so that runs keep exploring
@@ -113,7 +113,9 @@ def _run_variant(payload, sub):
         if not last:
             ds = DF.Flow(*links).datastream()
             rows = [list(r) for r in ds.res_iter]
-            cur = (copy.deepcopy(ds.dp.descriptor), rows)
+            # "the fully materialised output of the previous step": the descriptor is a JSON document, so it is
+            # materialised as one (a deepcopy would preserve references shared between resources)
+            cur = (json.loads(json.dumps(ds.dp.descriptor)), rows)
             inputs.append(sum(len(r) for r in rows))
             continue
         api = var['api']
@@ -167,7 +169,7 @@ class C01(Prop):
                    'the descriptor and rows are compared exactly; results() is compared with raw APIs through Table Schema casts of the raw rows']
     REAL_VS_STUB = {'real': ['everything under dataflows/ that the pipeline touches'], 'stub': ['none (the schedule is chosen by how the harness groups and drains the real generators)']}
     PROBES = ['user-bound-method', 'user-partial', 'user-callable-obj', 'user-lambda', 'user-function', 'crossed-inference-sample', 'nested-depth>=2', 'conditional-wrapped',
-              'barrier-after-sources', 'api-process', 'api-datastream', 'both-raise-discard', 'uninterpretable-link', 'one-shot-source']
+              'barrier-after-sources', 'api-process', 'api-datastream', 'both-raise-discard', 'uninterpretable-link', 'one-shot-source', 'nested-in-place-edit']
     TIERS = {'quick': dict(runs=500, wall=100, run_wall=120),
              'thorough': dict(runs=15000, wall=1700, run_wall=300)}
     SHRINK_FROZEN = ('fields', 'gen_stats')
@@ -197,6 +199,8 @@ class C01(Prop):
                 ctx.probe({'method': 'user-bound-method', 'partial': 'user-partial', 'callable_obj': 'user-callable-obj', 'lambda': 'user-lambda', 'function': 'user-function'}[sp['kind']])
         if any(len(t['rows']) > 100 for t in sc['tables']):
             ctx.probe('crossed-inference-sample')
+        if any(sp['step'] == 'nested_edit' for sp in sc['steps']):
+            ctx.probe('nested-in-place-edit')
 
         def shape(o):
             return [len(r) for r in o['value']['rows'] or []]
